@@ -41,6 +41,24 @@ POINTS_WRAPPERS = {
 }
 
 
+# N-int rule instances: y / x are the (possibly integer-typed) curve columns, y_hat the fitted values (real), coef = (b, m) reals
+INT_SHAPES = {
+    **{f"metrics.{m}": {"y": "arr", "y_hat": "float"} for m in ("rmse", "rmsle", "rmspe", "rpd", "residuals", "smape", "r2")},
+    "linear_fit.linear_fit": {"x": "arr", "y": "arr"},
+    "linear_fit.linear_transform": {"x": "arr", "coef": "coef"},
+    "linear_fit.linear_r2": {"x": "arr", "y": "arr", "coef": "coef"},
+    "linear_fit.linear_residuals": {"x": "arr", "y": "arr", "coef": "coef"},
+    "linear_fit.linear_fit_residuals": {"x": "arr", "y": "arr"},
+    "linear_fit.linear_hv_residuals": {"x": "arr", "y": "arr"},
+    "linear_fit.r2": {"x": "arr", "y": "arr"},
+    "linear_fit.rmse": {"x": "arr", "y": "arr", "coef": "coef"},
+    "linear_fit.rmspe": {"x": "arr", "y": "arr", "coef": "coef"},
+    "linear_fit.rmsle": {"x": "arr", "y": "arr", "coef": "coef"},
+    "linear_fit.smape": {"x": "arr", "y": "arr", "coef": "coef"},
+    "linear_fit.rpd": {"x": "arr", "y": "arr", "coef": "coef"},
+}
+
+
 def _metric_env(rc: RuleCtx):
     ev = rc.new_eval()
     y = ev.symbol("y", True)
@@ -286,6 +304,8 @@ def run(ctx):
              "would truncate the fitted values before the metric is taken)")
     from . import detectors as _d
     _d.dtype_guard(rc, "D-dtype", ["metrics", "linear_fit"])
+    from . import c17 as _c17
+    _c17._sec_intwidth(rc, "N-int", INT_SHAPES)
     res.extra_coverage.update({"programs": programs, "disagreements_checked": len(res.findings)})
     res.analysed["inlined_functions"] = sorted(rc.ev.inlined)
     res.assumptions += ["real-number reading of the formulas (floating-point rounding is outside the claim)",
